@@ -152,7 +152,7 @@ pub fn property() -> Property {
                to the C03 reference; ANYONECANPAY types: One == All; other types: One is an error. Non-trivial: >=2 query \
                kinds with >=3 queries, or a witness_mut between queries, or a One query; distinct by rendered history.",
         assumptions: &["spent outputs are fixed for a cache (they are a function of the unchanged transaction's inputs)"],
-        subs: vec![Sub { name: "histories", kind: Kind::Tape { max_len: 4000, quick: 15_000, thorough: 400_000, f: histories } }],
+        subs: vec![Sub { name: "histories", kind: Kind::Tape { max_len: 4000, quick: 225_000, thorough: 2_000_000, f: histories } }],
         known: c03::knowns().into_iter().filter(|k| k.key == c03::KF_ACP_ONE || k.key == c03::KF_LEGACY_SINGLE).collect(),
     }
 }
